@@ -29,7 +29,7 @@ import random
 import numpy as np
 from bounded._common import Tally, rtcheck, load_contracts
 
-ASSUMPTIONS = ["bounded tier: operator sequences of length <= 4 over 5 leaf values (quick: length 4 subsampled 1/41), random derivations of depth <= 4 (quick, 1000 trees) / "
+ASSUMPTIONS = ["bounded tier: operator sequences of length <= 4 over 5 leaf values (quick: length 4 subsampled 1/41), random derivations of depth <= 4 (quick, 800 trees) / "
                "<= 6 (thorough, 20000 trees), token strings of length <= 4 over 13 tokens; reference values outside 1e-100..1e100, zero divisors / zero bases, "
                "exactly cancelling sums, arguments on a branch cut and trees whose forward error bound exceeds 1e-11 are skipped (counted); comparison relative 1e-9"]
 
@@ -589,10 +589,10 @@ def work_seq(tier, seed, items):
                 if toks(tree) != tokens:
                     raise AssertionError('harness: reference parser and renderer disagree on %r' % (tokens,))
                 flat = ''.join(tokens)
-                # quick: literals and one of the two variable bindings as flat strings, one binding with whitespace, every other item one fully parenthesised
+                # quick: literals and one of the two variable bindings as flat strings, one binding with whitespace, every third item one fully parenthesised
                 do_flat = tier == 'thorough' or b == 0 or b == 1 + idx % 2
                 do_ws = b == (idx + p) % 3
-                do_full = b == (idx + p + 1) % 3 and (tier == 'thorough' or idx % 2 == 0)
+                do_full = b == (idx + p + 1) % 3 and (tier == 'thorough' or idx % 3 == 0)
                 if not (do_flat or do_ws or do_full):
                     continue
                 try:
@@ -1107,9 +1107,9 @@ def plan(tier, seed, only=None):
     quick = tier == 'quick'
     items = seq_items(tier)
     tasks += [('seq', tier, seed, c) for c in _chunks(items, 400)]
-    n_deep = 1000 if quick else 20000
+    n_deep = 800 if quick else 20000
     tasks += [('deep', tier, seed, c) for c in _chunks(list(range(n_deep)), 250)]
-    n_arr = 300 if quick else 4000
+    n_arr = 200 if quick else 4000
     tasks += [('arr', tier, seed, c) for c in _chunks(list(range(n_arr)), 250)]
     tasks.append(('num', tier, seed, None))
     tasks.append(('invalid', tier, seed, None))
